@@ -76,7 +76,7 @@ def run_behaviour(fx, np, bid, h, variant=0):
         raised, err, cont_ok = False, '', True
         tgt = a.get('x') if act in ('New', 'Store', 'SetItem', 'SetItemFxp', 'Resize', 'Reset', 'SetCfg', 'SetCfgBad', 'Assign', 'Drop') else \
             a.get('z') if act == 'BinOpOut' else \
-            (a.get('y') if act in ('GetItem', 'CtorLike', 'Like', 'LikeShallow', 'CopyShallow', 'DeepCopy', 'RShiftKeep', 'Invert') else a.get('z'))
+            (a.get('y') if act in ('GetItem', 'CtorLike', 'Like', 'LikeShallow', 'CopyShallow', 'DeepCopy', 'RShiftKeep', 'LShiftKeep', 'Invert') else a.get('z'))
         for r in rec.values():
             if r is not None:
                 r.ev = []
@@ -84,11 +84,29 @@ def run_behaviour(fx, np, bid, h, variant=0):
             if act == 'New':
                 t = a['fmt']
                 vals = [val(k, t) for k in a['ks']]
-                carrier = (variant + i) % 3
-                cont = vals if carrier == 0 else (tuple(vals) if carrier == 1 else np.array(vals))
-                before = list(cont)
-                adopt(a['x'], Fxp(cont, t['s'], t['w'], t['f'], rounding=a['r'], overflow=a['o']))
-                cont_ok = list(cont) == before and type(cont) in (list, tuple, np.ndarray)
+                import copy as _copy
+                lo_ = -(1 << (t['w'] - 1)) if t['s'] else 0
+                hi_ = (1 << (t['w'] - 1)) - 1 if t['s'] else (1 << t['w']) - 1
+                exact = all(k % 4 == 0 and lo_ <= k // 4 <= hi_ for k in a['ks']) and t['w'] >= 2
+                carrier = (variant + i + bid) % (7 if exact else 3)
+                if carrier == 0:
+                    cont = list(vals)
+                elif carrier == 1:
+                    cont = tuple(vals)
+                elif carrier == 2:
+                    cont = np.array(vals)
+                else:
+                    # containers of bin / hex strings (the codes rendered as n_word-bit two's-complement images)
+                    codes = [k // 4 for k in a['ks']]
+                    bins = ['0b' + format(c & ((1 << t['w']) - 1), '0%db' % t['w']) for c in codes]
+                    hexs = ['0x' + format(c & ((1 << t['w']) - 1), '0%dX' % ((t['w'] + 3) // 4)) for c in codes]
+                    cont = {3: list(bins), 4: [[b] for b in bins], 5: tuple(bins), 6: list(hexs)}[carrier]
+                before = _copy.deepcopy(cont)
+                obj = Fxp(cont, t['s'], t['w'], t['f'], rounding=a['r'], overflow=a['o'])
+                if carrier == 4:
+                    obj = Fxp(obj.val.ravel(), t['s'], t['w'], t['f'], raw=True, rounding=a['r'], overflow=a['o'])   # the model's arrays are 1-D
+                adopt(a['x'], obj)
+                cont_ok = (np.array_equal(cont, before) if isinstance(cont, np.ndarray) else cont == before) and type(cont) is type(before)
             elif act == 'Store':
                 o = heap[a['x']]
                 vals = [val(k, common.fmt_dict(o)) for k in a['ks']]
@@ -109,7 +127,11 @@ def run_behaviour(fx, np, bid, h, variant=0):
             elif act == 'RShiftKeep':
                 src = heap[a['x']]
                 src.config.shifting = ['trunc', 'keep'][(variant + i) % 2]
-                adopt(a['y'], src >> 1)
+                adopt(a['y'], src >> (a['n'] if (variant + i) % 2 else np.int64(a['n'])))
+            elif act == 'LShiftKeep':
+                src = heap[a['x']]
+                src.config.shifting = ['trunc', 'keep'][(variant + i) % 2]
+                adopt(a['y'], src << a['n'])
             elif act == 'Invert':
                 adopt(a['y'], ~heap[a['x']])
             elif act == 'CtorLike':
@@ -125,7 +147,10 @@ def run_behaviour(fx, np, bid, h, variant=0):
             elif act == 'Resize':
                 t = a['fmt']
                 o = heap[a['x']]
-                if (variant + i) % 3 == 2:
+                if (variant + i + bid) % 4 == 3:
+                    # the sizes given as n_int + n_frac (the word follows arithmetically)
+                    o.resize(t['s'] if t['s'] != bool(o.signed) else None, None, t['f'], t['w'] - t['f'] - (1 if t['s'] else 0))
+                elif (variant + i) % 3 == 2:
                     # only the sizes that change are passed (the others stay None)
                     o.resize(t['s'] if t['s'] != bool(o.signed) else None, t['w'] if t['w'] != o.n_word else None,
                              t['f'] if t['f'] != o.n_frac else None)
